@@ -228,6 +228,16 @@ class Sequential(Facet):
             rec.nontrivial(case)
 
 
+class LossyStr(tuple):
+    """A genotype whose text does not identify it (as programs printed without parentheses or with
+    rounded constants do): different genotypes, equal str()."""
+
+    def __str__(self):
+        return f"g{self[1] // 2}"
+
+    __repr__ = __str__
+
+
 class Parallel(Facet):
     name = "parallel_evaluator"
     fuzz_runs = 0  # every case spawns processes: too slow for a coverage-guided campaign
@@ -257,7 +267,9 @@ class Parallel(Facet):
             jitter = {int(k): v for k, v in case["jitter"].items()}
             problems = [make_problem(pd, flog, jitter) for pd in case["problems"]]
             rep = TableRep()
-            inds = [Individual((i, v), rep) for i, v in enumerate(case["values"])]
+            mk = LossyStr if len(case["values"]) % 2 == 0 else tuple
+            rec.label("genotype-text:" + ("lossy" if mk is LossyStr else "exact"))
+            inds = [Individual(mk((i, v)), rep) for i, v in enumerate(case["values"])]
             ev = ParallelEvaluator()
             rec.sample(case, limit=2)
             mixed = False
